@@ -262,7 +262,8 @@ def run_path(pp, solver, tvars, entry, n, decisions, extra_pc=(), nd_shared=None
         if p is None: return None
         d = p.f[P['cst']].f[CST['data']]
         return (k, bb, len(m.stack), p.f[P['pos']], p.f[P['error_since_advance']], p.f[P['error_node']].disc,
-                p.f[P['in_ordered_choice']], len(d.f[CD['nodes']].items), d.f[CD['non_skip_len']], m.nd)
+                p.f[P['in_ordered_choice']], tuple(node_plain(x, pp)[1:] for x in d.f[CD['nodes']].items), d.f[CD['non_skip_len']], m.nd,
+                tuple((i, v) for i, v in enumerate(fr.L) if v.__class__ in (int, bool)))      # e.g. which alternative of an ordered choice is being attempted
     r.loop_key = loop_key
     toks = VecObj([Agg('Token', Sym(t), []) for t in tvars[:n]])
     spans = VecObj([Agg('Range', None, [i, i + 1]) for i in range(n)])
